@@ -17,9 +17,23 @@ _SAFE_BIN = (ast.Add, ast.Sub, ast.Mult, ast.BitAnd, ast.BitOr, ast.BitXor)
 _SHIFT = (ast.LShift, ast.RShift)
 
 
+_EXT = [False]     # extended mode (convert(fn, extended=True)): `not x` and pure conditional expressions count as pure
+
+
 def _pure_expr(e):
     if isinstance(e, (ast.Name, ast.Constant)):
         return True
+    if _EXT[0]:
+        if isinstance(e, ast.UnaryOp) and isinstance(e.op, ast.Not):
+            return _pure_expr(e.operand)
+        if isinstance(e, ast.IfExp):
+            return _pure_expr(e.test) and _pure_expr(e.body) and _pure_expr(e.orelse)
+        if isinstance(e, ast.Call) and isinstance(e.func, ast.Name) and not e.keywords:
+            # the calls this transformer itself puts in place of `not x` / `a if t else b`
+            if e.func.id == "__symx_not":
+                return all(_pure_expr(a) for a in e.args)
+            if e.func.id == "__symx_ifexp":
+                return _pure_expr(e.args[0]) and all(_pure_expr(a.body) for a in e.args[1:])
     if isinstance(e, ast.BinOp):
         if isinstance(e.op, _SAFE_BIN):
             return _pure_expr(e.left) and _pure_expr(e.right)
@@ -56,9 +70,53 @@ def _pure_stmts(stmts, names):
 
 
 class _Conv(ast.NodeTransformer):
-    def __init__(self):
+    def __init__(self, extended=False):
         self.n = 0
         self.converted = 0
+        self.extended = extended
+
+    # -- extended mode (opt-in) --------------------------------------------------------------------
+    # * `if T: return A` directly followed by `return B`  ==  `return A if T else B`  (always)
+    # * `A if T else B` with exception-free integer expressions A, B: T is evaluated once, as before; when
+    #   it is symbolic both A and B are evaluated (pure) and merged with if-then-else instead of forking
+    # * `not x` -> sym_not(x) (identical on concrete values; no fork on a symbolic truth value)
+    def _fold_returns(self, body):
+        out = []
+        i = 0
+        while i < len(body):
+            s = body[i]
+            if (isinstance(s, ast.If) and not s.orelse and len(s.body) == 1 and isinstance(s.body[0], ast.Return)
+                    and s.body[0].value is not None and i + 1 < len(body) and isinstance(body[i + 1], ast.Return)
+                    and body[i + 1].value is not None):
+                out.append(ast.Return(value=ast.IfExp(test=s.test, body=s.body[0].value, orelse=body[i + 1].value)))
+                i += 2
+                continue
+            out.append(s)
+            i += 1
+        return out
+
+    def visit_FunctionDef(self, node):
+        if self.extended:
+            node.body = self._fold_returns(node.body)
+        self.generic_visit(node)
+        return node
+
+    def visit_IfExp(self, node):
+        if not self.extended or not (_pure_expr(node.body) and _pure_expr(node.orelse)):
+            self.generic_visit(node)
+            return node
+        self.generic_visit(node)
+        self.converted += 1
+        noargs = ast.arguments(posonlyargs=[], args=[], kwonlyargs=[], kw_defaults=[], defaults=[])
+        return ast.Call(func=ast.Name(id="__symx_ifexp", ctx=ast.Load()),
+                        args=[node.test, ast.Lambda(args=noargs, body=node.body),
+                              ast.Lambda(args=copy_args(noargs), body=node.orelse)], keywords=[])
+
+    def visit_UnaryOp(self, node):
+        self.generic_visit(node)
+        if self.extended and isinstance(node.op, ast.Not):
+            return ast.Call(func=ast.Name(id="__symx_not", ctx=ast.Load()), args=[node.operand], keywords=[])
+        return node
 
     def visit_If(self, node):
         self.generic_visit(node)
@@ -95,6 +153,10 @@ else:
         sym = el.orelse
         import copy
         sym[0].value = tup(ast.Load)
+        if self.extended:
+            # a name first bound inside the branches (e.g. `sign` in if/else) is not readable yet:
+            # save/restore through locals() with a sentinel; merging a still-unbound name escapes
+            sym[0].value = ast.parse("__symx_snap(locals(), %r)" % (tuple(ns),)).body[0].value
         sym[1:2] = copy.deepcopy(node.body)
         i = 1 + len(node.body)
         sym[i].value = tup(ast.Load)                       # __t = (...)
@@ -123,11 +185,35 @@ def _test(x):
     return bool(x)
 
 
+def copy_args(a):
+    import copy
+    return copy.deepcopy(a)
+
+
+def _ifexp(c, fa, fb):
+    c = _test(c)
+    if c is True:
+        return fa()
+    if c is False:
+        return fb()
+    return _merge(c, (fa(),), (fb(),))[0]
+
+
+class _Unbound:
+    def __repr__(self):
+        return "<unbound local>"
+
+
+_UNBOUND = _Unbound()
+
+
 def _merge(c, t, e):
     out = []
     for a, b in zip(t, e):
         if a is b:
             out.append(a)
+        elif a is _UNBOUND or b is _UNBOUND:
+            raise SymbolicEscape("if-conversion: local bound on one side of a symbolic branch only")
         elif isinstance(a, (int, SymInt, SymBool)) and isinstance(b, (int, SymInt, SymBool)):
             out.append(ite(c, a, b))
         else:
@@ -135,16 +221,24 @@ def _merge(c, t, e):
     return tuple(out)
 
 
-def convert(fn):
-    """return a new function object compiled from fn's current source with pure ifs converted"""
+def convert(fn, extended=False):
+    """return a new function object compiled from fn's current source with pure ifs converted
+    (extended=True: additionally early-return ifs, pure conditional expressions and `not`, see _Conv)"""
     src = textwrap.dedent(inspect.getsource(fn))
     tree = ast.parse(src)
-    conv = _Conv()
-    tree = conv.visit(tree)
+    conv = _Conv(extended)
+    _EXT[0] = bool(extended)
+    try:
+        tree = conv.visit(tree)
+    finally:
+        _EXT[0] = False
     ast.fix_missing_locations(tree)
     glb = dict(fn.__globals__)
     glb["__symx_test"] = _test
     glb["__symx_merge"] = _merge
+    glb["__symx_ifexp"] = _ifexp
+    glb["__symx_not"] = core.sym_not
+    glb["__symx_snap"] = lambda loc, names: tuple(loc.get(n, _UNBOUND) for n in names)
     code = compile(tree, inspect.getsourcefile(fn) or "<ifconv>", "exec")
     ns = {}
     exec(code, glb, ns)
